@@ -776,12 +776,13 @@ type flattenStream[T any] struct {
 func (s *flattenStream[T]) Next(ctx context.Context) (T, error) {
 	for {
 		if s.curr == nil {
-			var err error
-			s.curr, err = s.inner.Next(ctx)
+			// What inner.Next returns alongside an error is meaningless: don't keep it.
+			curr, err := s.inner.Next(ctx)
 			if err != nil {
 				var zero T
 				return zero, err
 			}
+			s.curr = curr
 		}
 
 		item, err := s.curr.Next(ctx)
@@ -825,11 +826,12 @@ func (s *flattenSlicesStream[T]) Next(ctx context.Context) (T, error) {
 			return item, nil
 		}
 
-		var err error
-		s.buffer, err = s.inner.Next(ctx)
+		// What inner.Next returns alongside an error is meaningless: don't keep it.
+		buffer, err := s.inner.Next(ctx)
 		if err != nil {
 			return zero, err
 		}
+		s.buffer = buffer
 	}
 }
 
